@@ -449,6 +449,9 @@ func fromCtyObject(val cty.Value, target reflect.Value, path cty.Path) error {
 	switch target.Kind() {
 
 	case reflect.Struct:
+		if isBigNumberTarget(target.Type()) {
+			return path.NewErrorf("number value is required")
+		}
 
 		attrTypes := val.Type().AttributeTypes()
 		targetFields := structTagIndices(target.Type())
@@ -503,6 +506,9 @@ func fromCtyTuple(val cty.Value, target reflect.Value, path cty.Path) error {
 	switch target.Kind() {
 
 	case reflect.Struct:
+		if isBigNumberTarget(target.Type()) {
+			return path.NewErrorf("number value is required")
+		}
 
 		elemTypes := val.Type().TupleElementTypes()
 		fieldCount := target.Type().NumField()
@@ -591,6 +597,15 @@ func fromCtyCapsule(val cty.Value, target reflect.Value, path cty.Path) error {
 		return nil
 	}
 
+}
+
+// isBigNumberTarget recognizes the struct types that fromCtyNumberBig
+// populates from a number (big.Float, big.Int). They must never be treated as
+// object or tuple targets: their fields are unexported, so populating them
+// field by field would panic, and an empty object would be accepted without
+// storing anything.
+func isBigNumberTarget(ty reflect.Type) bool {
+	return bigFloatType.ConvertibleTo(ty) || bigIntType.ConvertibleTo(ty)
 }
 
 // fromCtyPopulatePtr recognizes when target is a pointer type and allocates
